@@ -10,13 +10,17 @@ reset_after — are inherited):
   dup                      the reply is delivered twice
   seq_add (delta=d)        the 16-bit sequence field of the reply (header bytes 10..11) is changed by d
   alter_type               the message-type byte of the reply (header byte 6) is changed to MSG_PING
+  reset_delivered          the request is delivered into the server's receive buffer, then the connection is reset
+                           BEFORE the server handles it: the server-side socket behaves like a real reset socket
+                           (buffered request still readable, getpeername() raises OSError(ENOTCONN), send raises
+                           EPIPE, further reads ECONNRESET); the client sees a reset connection
 Bookkeeping: `result_replies` (every MSG_RESULT reply the server produced, unaltered, oldest first) and
 `delivered` (number of post-handshake requests handed to daemon.handleRequest).
 
 Header layout of Pyro5 ('!4sHBBHHII16sHH'): 0..3 'PYRO', 4..5 version, 6 type, 7 serializer, 8..9 flags,
 10..11 seq, 12..15 data length, 16..19 annotations length, 20..35 correlation id, 36..37 reserved, 38..39 magic.
 """
-import struct
+import errno, struct
 from tools.lib.loopback import Loopback
 
 MSG_CONNECT = 1
@@ -38,6 +42,18 @@ class Loopback03(Loopback):
         self.result_replies = []
         self.delivered = 0
         self.client_consumed = 0
+
+    def _next_fault(self, c, msg):
+        f = super()._next_fault(c, msg)
+        if f.get("kind") == "reset_delivered":
+            # the reset reaches the server's socket before the server looks at the buffered request
+            c.s2c.reset = True
+            c.c2s.reset = True
+
+            def getpeername():
+                raise OSError(errno.ENOTCONN, "Transport endpoint is not connected")
+            c.ssock.getpeername = getpeername
+        return f
 
     def mark(self):
         self.result_replies = []
@@ -79,6 +95,9 @@ class Loopback03(Loopback):
                 b[6] = MSG_PING
                 reply = bytes(b)
             c.s2c.buf += reply
+        elif kind == "reset_delivered":
+            # whatever the server managed to write went to a dead connection
+            self._reset(c)
         elif kind in ("deliver", "drop_request", "drop_reply", "delay_reply", "reset_before", "reset_after"):
             super()._apply_reply_fault(c, fault, reply)
         else:
